@@ -141,7 +141,10 @@ def to_ete(t):
 
 def from_ete(node):
     if node.is_leaf():
-        return int(node.name)
+        try:
+            return int(node.name)
+        except ValueError:
+            return 63             # a leaf that is not one of the given labels (e.g. an unnamed node)
     return [from_ete(c) for c in node.children]
 
 
